@@ -63,6 +63,14 @@ func c23GenText(t *rapid.T) string {
 		}
 		s = s[:pos] + c23Unicode[rapid.IntRange(0, len(c23Unicode)-1).Draw(t, "upiece")] + s[pos:]
 	}
+	// a comment with non-BMP / non-ASCII characters at the beginning of some lines: everything
+	// behind it on that line has different byte, rune and UTF-16 columns
+	for n := rapid.IntRange(0, 2).Draw(t, "lineComments"); n > 0; n-- {
+		lines := strings.SplitAfter(s, "\n")
+		k := rapid.IntRange(0, len(lines)-1).Draw(t, "commentLine")
+		lines[k] = []string{"/*😀*/", "/* é𝒳 */ ", "/*😀😀*/ "}[rapid.IntRange(0, 2).Draw(t, "commentKind")] + lines[k]
+		s = strings.Join(lines, "")
+	}
 	if !utf8.ValidString(s) {
 		s = strings.ToValidUTF8(s, "?") // JSON transport cannot carry invalid UTF-8
 	}
@@ -73,15 +81,24 @@ func c23Gen(t *rapid.T) c23Case {
 	var c c23Case
 	n := rapid.IntRange(1, 10).Draw(t, "ops")
 	open := map[int]bool{}
+	texts := map[int]string{}
 	for i := 0; i < n; i++ {
 		doc := rapid.IntRange(0, 2).Draw(t, "doc")
 		k := rapid.IntRange(0, 9).Draw(t, "kind")
 		switch {
 		case !open[doc] && k < 8:
-			c.Ops = append(c.Ops, c23Op{Kind: "open", Doc: doc, Text: c23GenText(t)})
+			texts[doc] = c23GenText(t)
+			c.Ops = append(c.Ops, c23Op{Kind: "open", Doc: doc, Text: texts[doc]})
 			open[doc] = true
 		case k < 4:
-			c.Ops = append(c.Ops, c23Op{Kind: "change", Doc: doc, Text: c23GenText(t)})
+			// one change in four re-sends the current text under a new version (undo/redo, a
+			// repeated full sync): it still needs its own diagnostics
+			if cur, ok := texts[doc]; !ok || rapid.IntRange(0, 3).Draw(t, "sameText") > 0 {
+				texts[doc] = c23GenText(t)
+			} else {
+				texts[doc] = cur
+			}
+			c.Ops = append(c.Ops, c23Op{Kind: "change", Doc: doc, Text: texts[doc]})
 			open[doc] = true // the server stores changed documents
 		case k < 8:
 			c.Ops = append(c.Ops, c23Op{Kind: "def", Doc: doc, K: rapid.IntRange(0, 200).Draw(t, "k"), Delta: rapid.IntRange(0, 3).Draw(t, "delta")})
@@ -421,13 +438,26 @@ func c23Check(c c23Case, r *ev.Recorder) *Failure {
 		}
 	}
 
+	// A last request marks the end of the burst: requests are handled one after the other, so
+	// when its answer arrives every earlier message has been processed.
+	const sentinel = 99999
+	cl.send(map[string]any{"jsonrpc": "2.0", "id": sentinel, "method": "textDocument/definition", "params": map[string]any{
+		"textDocument": map[string]any{"uri": "file:///w/none.tm"}, "position": map[string]any{"line": 0, "character": 0}}})
+
 	// collect
 	gotDiags := 0
 	gotDefs := 0
 	initialized := false
+	sentinelSeen := false
 	timeout := time.After(60 * time.Second)
 	sawUnicodeDiag, sawDefResult := false, false
 	for gotDiags < len(wantDiags) || gotDefs < len(defs) || !initialized {
+		if sentinelSeen && gotDiags < len(wantDiags) {
+			// Diagnostics are written by a handler before the next handler may start, so all of them
+			// precede the answer to the last request. (Answers to requests are written after the
+			// next handler is released and may arrive later; they are simply waited for.)
+			return failf("diagnostics-missing", "the server has answered the last request of the burst but only %d of %d diagnostics publications arrived before it; history %s", gotDiags, len(wantDiags), history())
+		}
 		var m lspMsg
 		var ok bool
 		select {
@@ -491,6 +521,10 @@ func c23Check(c c23Case, r *ev.Recorder) *Failure {
 				if m.Error != nil {
 					return failf("initialize-fails", "initialize with one workspace folder fails: %s", m.Error.Message)
 				}
+				continue
+			}
+			if id == sentinel {
+				sentinelSeen = true
 				continue
 			}
 			p := defs[id]
